@@ -13,6 +13,7 @@ import itertools
 import re
 
 from .core import AnalysisError
+from .core import model_token
 from .absint import Obj, ClassVal, AbsRaise, Unsupported, DT, TD
 from .codecmodel import CodecInterp, describe
 from .oracles import rfc
@@ -305,7 +306,7 @@ _CACHE = {}
 
 
 def report(ctx, rule, loc):
-    key = id(ctx.model)
+    key = model_token(ctx.model)
     if key not in _CACHE:
         _CACHE[key] = explore(ctx)
     F = _CACHE[key]
